@@ -107,8 +107,9 @@ class Check:
             'wall_s': round(wall, 2),
             'violations': len(self.violations),
         }
-        os.makedirs(os.path.join(VERIF, 'evidence'), exist_ok=True)
-        with open(os.path.join(VERIF, 'evidence', self.pid + '.json'), 'w') as f:
+        evdir = os.environ.get('VERIF_EVIDENCE_DIR') or os.path.join(VERIF, 'evidence')
+        os.makedirs(evdir, exist_ok=True)
+        with open(os.path.join(evdir, self.pid + '.json'), 'w') as f:
             json.dump(ev, f, indent=1, default=str)
         for key, n in sorted(self.known_hits.items()):
             what = [k['what'] for k in self.known if k['key'] == key][0]
@@ -118,7 +119,7 @@ class Check:
                 print('MACHINERY-ERROR: property=%s %s' % (self.pid, m))
             return 2
         if self.violations:
-            rdir = os.path.join(VERIF, 'replays', self.pid)
+            rdir = os.path.join(os.environ.get('VERIF_REPLAY_DIR') or os.path.join(VERIF, 'replays'), self.pid)
             os.makedirs(rdir, exist_ok=True)
             seen = {}
             for v in self.violations:
